@@ -94,7 +94,7 @@ CHECKS["C18"] = dict(
     technique="data-dependence and guard (must-event) rules, serial qualifier analysis, grid evaluation of fraction_lost against RFC 3550 A.3, interval analysis of the packed report fields",
     text="Decides: the reported highest sequence includes wrap cycles and the cycle counter only advances for in-order packets; timestamp differences are reduced "
          "modulo 2^32; fraction_lost equals the RFC formula on a grid incl. duplicates/late arrivals; packets_lost, highest_sequence, jitter and lsr provably fit "
-         "their RTCP fields; dlsr is 0 or the scaled delay and within 32 bits on a grid of delays; StreamStatistics equals an RFC 3550 reference on enumerated packet sequences (losses, duplicates, late copies of the newest packet, wraps). Numeric equality over histories is not decided.",
+         "their RTCP fields; dlsr is 0 or the scaled delay and within 32 bits on a grid of delays; StreamStatistics equals an RFC 3550 reference on enumerated packet sequences (losses, duplicates, late copies of the newest packet, wraps) and the report block _run_rtcp builds from it carries those values through serialise / parse. Numeric equality over histories is not decided.",
     ref="DESIGN.md section 3 C18")
 
 CHECKS["C01"] = dict(
@@ -137,7 +137,7 @@ CHECKS["C11"] = dict(
          "constant; a retransmission is sent only for the exact sequence number asked for; unwrap_rtx is dominated by the payload-length, apt and SSRC-mapping "
          "checks and the media codec is used afterwards; statistics see the wire packet while NACK generation and the jitter buffer see the unwrapped one; "
          "serial discipline in the RTP sender/receiver; the sender's RTX payload type is the one whose apt is the encoding codec (evaluated on codec-list layouts); media packets and unwrapped "
-         "retransmissions reach the jitter buffer exactly once; shared rules: NACK wire format and RTX wrapping (C07), jitter-buffer frame integrity on enumerated schedules (C10). It does not decide eventual recovery or byte identity of decoder input under loss schedules.",
+         "retransmissions reach the jitter buffer exactly once; the repair loop closed over both ends (lost sets x wraps x RTX on/off) delivers every packet once and asks only for lost ones; shared rules: NACK wire format and RTX wrapping (C07), jitter-buffer frame integrity on enumerated schedules (C10). It does not decide eventual recovery or byte identity of decoder input under loss schedules.",
     ref="DESIGN.md section 3 C11")
 
 CHECKS["C09"] = dict(
